@@ -26,11 +26,78 @@ RULE = ("case = (object kind and configuration, architecture before, method call
         "mutated on a fresh clone or in place)")
 
 
+CHAIN_CFG = """SPECIFICATION TSpec
+CONSTANTS
+  Slots = {1, 2, 3, 4}
+  Archs = {}
+  Fns = {}
+  MaxOps = 0
+  Variant = "faithful"
+  Diag = @DIAG@
+INVARIANT Described
+CHECK_DEADLOCK FALSE
+"""
+
+
+def _chain_sig(t, v):
+    e = v.event if isinstance(v.event, dict) else {}
+    cl = (v.clauses[0] if v.clauses else (v.invariant or "?")).split(":")[0]
+    if e.get("exc"):
+        cl = f"Raises[{e['exc'].split(':')[0]}]"
+    return f"chain:{t['cfg']['family']}:{e.get('op', '?')}:{cl}"
+
+
+def _chain_what(t, v):
+    e = v.event if isinstance(v.event, dict) else {}
+    return (f"clone-and-mutate chain rejected at operation {v.step} ({e.get('op')} {e.get('method', '')} a={e.get('a')} b={e.get('b')}): "
+            f"{v.clauses or v.invariant}; cfg={t['cfg']}; event={json.dumps(e)[:500]}")
+
+
+def chain_stage(ctx):
+    """Chains seen from the outside (specs/CloneChain*.tla): parent / clone / sibling objects live side by side, every one of
+    them is measured after every operation (seed C04-f: clones that share nested constructor arguments)."""
+    from concurrent.futures import ProcessPoolExecutor
+    from .. import tlc
+    from ..core import Vacuous
+    from ..drive import chain
+    jobs = [(fam, 10 if ctx.quick else 16, ctx.seed * 1000 + 17 * j + i)
+            for i, fam in enumerate(chain.FAMILIES) for j in range(4 if ctx.quick else 24)]
+    with ProcessPoolExecutor(max_workers=12) as ex:
+        pending = ex.map(chain.run_job, jobs)
+        ctx.mc("CloneChain_MC", "CloneChain_MC.cfg", must_cover=["CloneAny", "MutateAny", "DropAny"])
+        neg = tlc.run_tlc("CloneChain_MC", "CloneChain_Neg.cfg")
+        ctx.extra["chain_negative_control"] = {"cfg": "CloneChain_Neg.cfg", "violated": neg.violated_name}
+        if neg.ok:
+            raise Vacuous("negative control CloneChain_Neg.cfg (clones share their description) violates nothing")
+        traces = list(pending)
+    n_noop = n_clone_after_mut = 0
+    for t, jb in zip(traces, jobs):
+        ctx.case(("chain",) + tuple(jb), nontrivial=len(t["ev"]) >= 3)
+        prev = dict(enumerate(t["cfg"]["arch0"], 1))
+        mutated = False
+        for e in t["ev"]:
+            if e["op"] == "mutate" and not e["exc"]:
+                n_noop += e["arch"][e["a"] - 1] == prev.get(e["a"])
+                mutated = True
+            if e["op"] == "clone" and mutated:
+                n_clone_after_mut += 1
+            prev = dict(enumerate(e["arch"], 1))
+    ctx.extra["chain"] = {"chains": len(traces), "operations": sum(len(t["ev"]) for t in traces),
+                          "mutations_leaving_architecture_unchanged": int(n_noop), "clones_after_a_mutation": n_clone_after_mut}
+    if n_noop == 0 or n_clone_after_mut == 0:
+        raise Vacuous("chain stage: no architecture-preserving mutation / no clone after a mutation was exercised")
+    ctx.validate("CloneChain_Trace", CHAIN_CFG, traces, sig=_chain_sig, what=_chain_what, chunk=400)
+    ctx.assume("chain stage: the function of an object is identified by the bit pattern of its outputs on two fixed probe batches in "
+               "evaluation mode, its architecture by the printed layer structure plus parameter shapes; objects: MakeEvolvable (MLP, MLP with "
+               "LayerNorm, CNN), EvolvableMLP, EvolvableCNN, QNetwork, EvolvableMultiInput; up to 4 live objects, 10 (16) operations")
+
+
 def run(ctx):
     from ..drive import arch
     traces = arch.collect(ctx, PROP)
     arch.validate(ctx, traces)
     arch.bookkeeping(ctx, traces)
+    chain_stage(ctx)
     ctx.assume("numpy draws inside mutation methods (np.random.randint / np.random.choice) are inputs: in the edge replay they are scripted "
                "to the values of the TLC edge (must lie in the domain of the call, otherwise a seeded value of the domain is returned)")
     ctx.assume("the architecture of an object is read from its constructor description (init_dict); the real tensors are bound to it by "
